@@ -13,7 +13,9 @@ import json
 
 STREAMS = ['mkrule', 'match-pairs', 'route-histories', 'client-histories', 'client-daemon', 'rule-text', 'bus-parse',
            'bus-histories', 'proxy-gate', 'proxy-connections', 'oracle-vs-spec']
-THEOREMS = ['tables_current', 'mtypes_table_is_spec', 'match_eq_spec', 'namespace_is_component_prefix', 'route_exact',
+THEOREMS = ['tables_current', 'mtypes_table_is_spec', 'match_eq_spec', 'match_eq_spec_with', 'match_eq_spec_full',
+            'match_eq_spec_gen', 'gen_relation_is_full_spec', 'found_router_ignores_arg0namespace',
+            'namespace_is_component_prefix', 'route_exact',
             'route_independent_of_raising', 'invoked_exact_each_once', 'removed_never_invoked', 'ids_never_reused',
             'rule_text_roundtrip', 'client_text_means_constraints', 'bus_reads_what_the_text_means',
             'bus_scanner_follows_spec',
@@ -31,7 +33,9 @@ ASSUMPTIONS = [
     'cannot: addMatch/delMatch act after the daemon replied); the internal-API variant is probed and noted',
     'rule values are str, argument indices are non-negative int; constraint values that are the empty string are '
     'dropped by the router (falsy) - neither matching nor the rule text is judged for rules containing them',
-    'sender and arg0namespace are not evaluated locally (not among the constraints the property lists)',
+    'sender is not evaluated locally (a client-side router sees unique names); arg0namespace IS judged, by the DBus '
+    'specification: first argument of type STRING, equal to the value or continuing it after a dot (key '
+    'arg0namespace-constraint-ignored on a tree whose Rule.match does not evaluate it)',
     'whether argN may match an OBJECT_PATH / SIGNATURE / variant-wrapped string argument (the DBus spec says '
     'STRING only; the code sees one Python str type) is left unjudged by the oracle',
     'the oracle judges a registration only while it is settled (acknowledged and no removal requested, or removal '
@@ -57,6 +61,7 @@ DESTS = [':1.1', ':1.10', 'x.y', 'x.yz']
 SENDERS = [':1.5', 'x.y']
 STRVALS = ['x', 'xy', '', '/aa/bb', '/aa/bb/', '/aa/', '/aa/bbc', '/', '/aa', '/aa/bb/cc', 'a.b', '/aa/bb/cc/', "it's",
            'X', 'x ', '7', 'True', '1.5', 'a,b', 'a=b', 'a\\b']
+NAMEVALS = ['com.ex', 'com.ex.a', 'com.exa', 'com', 'com.e', 'com.ex.a.b', 'org.ex.A', 'a.b.c', 'a.bc', 'org']
 OTHER_BODY = [('i', 7), ('b', True), ('u', 0), ('d', 1.5), ('as', ['x']), ('ay', [120]), ('(s)', ['x']),
               ('a{ss}', {'x': 'x'}), ('x', 1 << 40), ('y', 47)]
 
@@ -262,7 +267,7 @@ def gen_body(rng):
         q = rng.random()
         if q < 0.55:
             sig += 's'
-            body.append(rng.choice(STRVALS))
+            body.append(rng.choice(NAMEVALS) if rng.random() < 0.25 else rng.choice(STRVALS))
         elif q < 0.70:
             sig += 'o'
             body.append(rng.choice(PATHS))
@@ -336,6 +341,18 @@ def argpath_candidates(a):
     return sorted(out)
 
 
+def arg0ns_candidates(a):
+    """arg0namespace values around a first argument a: itself, the namespaces above it (inside), a textual prefix
+    that is no namespace of it ('com.ex' for 'com.exa': sibling), a name below it, a trailing dot."""
+    out = {a, a + '.x', a + 'a', a + '.'}
+    parts = a.split('.')
+    for i in range(1, len(parts)):
+        out.add('.'.join(parts[:i]))
+    if len(a) > 1:
+        out.add(a[:-1])
+    return sorted(x for x in out if x)
+
+
 def gen_rule_for(rng, mv, p_key=0.35, p_miss=0.3):
     """A rule derived from the message view mv: each key present with probability p_key, copied from the
     message (satisfied) or replaced by a near-miss."""
@@ -380,11 +397,12 @@ def gen_rule_for(rng, mv, p_key=0.35, p_miss=0.3):
         kw['arg_paths'] = aps
     if rng.random() < 0.08:
         kw['sender'] = rng.choice(SENDERS)
-    if rng.random() < 0.05:
-        kw['arg0namespace'] = rng.choice(['a.b', 'org'])
+    if rng.random() < max(0.08, p_key / 3.0):
+        kw['arg0namespace'] = rng.choice(arg0ns_candidates(body[0][1])) if body and body[0][0] == 'str' and body[0][1] \
+            and not miss() else rng.choice(NAMEVALS + ['a.b', 'x'])
     # falsy values (dropped by the router) and empty lists, rarely
     if rng.random() < 0.04:
-        kw[rng.choice(['mtype', 'interface', 'member', 'path', 'destination', 'path_namespace'])] = ''
+        kw[rng.choice(['mtype', 'interface', 'member', 'path', 'destination', 'path_namespace', 'arg0namespace'])] = ''
     if rng.random() < 0.03:
         kw[rng.choice(['args', 'arg_paths'])] = []
     return kw
@@ -415,7 +433,7 @@ def oracle_matches(kw, mv):
     (constraint-kind, detail) for every constraint the message does not satisfy."""
     failing = []
     undecided = False
-    for k in ('mtype', 'interface', 'member', 'path', 'destination', 'path_namespace'):
+    for k in ('mtype', 'interface', 'member', 'path', 'destination', 'path_namespace', 'arg0namespace'):
         if kw.get(k) == '':
             return None, []            # empty constraint value: dropped by the router, not judged
     t = kw.get('mtype')
@@ -455,6 +473,20 @@ def oracle_matches(kw, mv):
             failing.append(('arg_paths', 'plain-prefix' if s.startswith(val) else 'different'))
         elif typ not in ('s', 'o', None):
             undecided = True
+    ns0 = kw.get('arg0namespace')
+    if ns0 is not None:
+        # DBus specification: "matches messages whose first argument is of type STRING, and is a bus name or interface
+        # name within the specified namespace" ('com.ex' contains 'com.ex' and 'com.ex.a', not 'com.exa')
+        if not body:
+            failing.append(('arg0namespace', 'no-body' if mv['body'] is None else 'missing'))
+        else:
+            kind, s, typ = body[0]
+            if kind != 'str':
+                failing.append(('arg0namespace', 'non-string'))
+            elif not (s == ns0 or s[:len(ns0) + 1] == ns0 + '.'):
+                failing.append(('arg0namespace', 'sibling' if s[:len(ns0)] == ns0 else 'different'))
+            elif typ not in ('s', None):
+                undecided = True      # inside the namespace by its text, but not of DBus type STRING
     if failing:
         return False, failing
     if undecided:
@@ -468,6 +500,13 @@ def classify(kw, mv, called, verdict, failing):
         kinds = sorted(set(k for k, _ in failing))
         if kinds == ['mtype']:
             return 'mtype-constraint-ignored', "a rule with type=%r receives a %s" % (kw['mtype'], MTYPE_NAMES.get(mv['mtype']))
+        if kinds == ['arg0namespace']:
+            return ('arg0namespace-constraint-ignored',
+                    'a rule with arg0namespace=%r receives a message whose first argument is %s (%r): the constraint is not '
+                    'evaluated' % (kw['arg0namespace'], {'sibling': 'a textual continuation, not inside the namespace',
+                                                        'different': 'outside the namespace', 'non-string': 'not a string',
+                                                        'no-body': 'absent (no body)', 'missing': 'absent'}[failing[0][1]],
+                                   [b[1] for b in (mv['body'] or [])][:1]))
         if kinds == ['path_namespace']:
             if failing[0][1] == 'sibling':
                 return ('path-namespace-prefix-sibling',
@@ -785,6 +824,23 @@ DIRECTED = [
     ({'arg_paths': [[0, '/']]}, SIG(signature='s', body=['/aa/bb'])),
     ({'arg_paths': [[0, '/aa/']]}, SIG(signature='i', body=[5])),
     ({'arg_paths': [[1, '/aa/']]}, SIG(signature='s', body=['/aa/'])),
+    ({'arg0namespace': 'com.ex'}, SIG(signature='s', body=['com.ex'])),
+    ({'arg0namespace': 'com.ex'}, SIG(signature='s', body=['com.ex.a'])),
+    ({'arg0namespace': 'com.ex'}, SIG(signature='ss', body=['com.ex.a.b', 'x'])),
+    ({'arg0namespace': 'com.ex'}, SIG(signature='s', body=['com.exa'])),
+    ({'arg0namespace': 'com.ex'}, SIG(signature='s', body=['com.e'])),
+    ({'arg0namespace': 'com.ex'}, SIG(signature='s', body=['com'])),
+    ({'arg0namespace': 'com.ex'}, SIG(signature='s', body=['org.other'])),
+    ({'arg0namespace': 'com.ex'}, SIG(signature='ss', body=['x', 'com.ex'])),
+    ({'arg0namespace': 'com.ex'}, SIG(signature='i', body=[7])),
+    ({'arg0namespace': 'com.ex'}, SIG(signature='as', body=[['com.ex']])),
+    ({'arg0namespace': 'com.ex'}, SIG()),
+    ({'arg0namespace': 'com.ex.'}, SIG(signature='s', body=['com.ex.a'])),
+    ({'arg0namespace': 'com'}, SIG(signature='s', body=['com.ex.a'])),
+    ({'arg0namespace': 'com.ex', 'member': 'M'}, SIG(signature='s', body=['com.exa'])),
+    ({'arg0namespace': 'com.ex', 'member': 'N'}, SIG(signature='s', body=['com.ex.a'])),
+    ({'arg0namespace': 'com.ex', 'args': [[0, 'com.ex.a']]}, SIG(signature='s', body=['com.ex.a'])),
+    ({'arg0namespace': '/a'}, SIG(signature='o', body=['/a'])),
     ({'interface': 'a.b'}, SIG(interface='a.bc')),
     ({'path': '/a/b'}, SIG(path='/a/bc')),
     ({'member': 'M'}, SIG(member='Mm')),
@@ -2028,7 +2084,9 @@ def stream_text(ctx, rules, malformed):
                     got = len(peer.sent) > 0
                     if got != v:
                         key, what = explain(kw, m, mv, got, v, failing)
-                        ctx.violation('bus-' + key, 'bus-side rule registered from the text %r: %s' % (text, what),
+                        # the bus routes through the same Rule class: an ignored arg0namespace is the same defect
+                        ctx.violation(key if key == 'arg0namespace-constraint-ignored' else 'bus-' + key,
+                                      'bus-side rule registered from the text %r: %s' % (text, what),
                                       inp={'stream': 'rule-text', 'rule': clean_kw(kw), 'message': spec},
                                       observed='forwarded' if got else 'not forwarded',
                                       expected='forwarded' if v else 'not forwarded')
@@ -2100,7 +2158,17 @@ def derived_specs(kw):
             if isinstance(d.get(k), str):
                 d[k] = conv(d[k]) if conv(d[k]) else d[k]
         return d
-    cands = [with_body(lambda i: i, lambda v: v),
+    ns0 = kw.get('arg0namespace')
+    extra = []
+    if ns0 and not any(i == 0 for i, _ in pairs):
+        for first in (ns0, ns0 + '.x', ns0 + 'x', ns0[:-1] or 'q'):
+            d = with_body(lambda i: i, lambda v: v)
+            body = list(d.get('body') or ['q'])
+            body[0] = first
+            d['signature'] = 's' * len(body)
+            d['body'] = body
+            extra.append(d)
+    cands = extra + [with_body(lambda i: i, lambda v: v),
              with_body(lambda i: int(str(i)[0]), lambda v: v),
              with_body(lambda i: i, lambda v: v.strip()),
              with_body(lambda i: i, lambda v: v.swapcase())]
@@ -2258,7 +2326,7 @@ def run_bus_history(ctx, ops):
                     continue
                 # ---- oracle
                 for xi, x in enumerate(conns):
-                    want, undecided = 0, False
+                    want, undecided, want_ignoring = 0, False, 0
                     if x['alive']:
                         for kw, _ in x['rules']:
                             v, _f = oracle_matches(kw, mv)
@@ -2266,6 +2334,8 @@ def run_bus_history(ctx, ops):
                                 undecided = True
                             elif v:
                                 want += 1
+                            if oracle_matches({k: z for k, z in kw.items() if k != 'arg0namespace'}, mv)[0]:
+                                want_ignoring += 1
                     if undecided:
                         ctx.stat('bus-history:undecided')
                         continue
@@ -2279,6 +2349,12 @@ def run_bus_history(ctx, ops):
                         ctx.violation('bus-live-rule-not-delivered',
                                       'connection #%d holds %d live rule(s) the signal satisfies (it never removed them and is '
                                       'still connected) but receives the signal %d time(s)' % (xi, want, counts[xi]),
+                                      inp=inp, observed=counts, expected='%d for #%d' % (want, xi))
+                    elif counts[xi] == want_ignoring:
+                        ctx.violation('arg0namespace-constraint-ignored',
+                                      'connection #%d receives the signal %d time(s) but only %d of its live rules match: the '
+                                      'others carry an arg0namespace the first argument %r is not inside, and match once that '
+                                      'constraint is left out' % (xi, counts[xi], want, [b[1] for b in (mv['body'] or [])][:1]),
                                       inp=inp, observed=counts, expected='%d for #%d' % (want, xi))
                     else:
                         ctx.violation('bus-signal-delivered-without-matching-rule',
@@ -3012,6 +3088,13 @@ def run(ctx):
         for v in all_ap:
             if v.startswith(a[:2]):
                 grid.append(({'arg_paths': [[0, v]]}, SIG(signature='o', body=[a]), True))
+    all_n0 = sorted(set(x for a in NAMEVALS for x in arg0ns_candidates(a)))
+    for a in NAMEVALS + ['x', '']:
+        for ns in all_n0:
+            grid.append(({'arg0namespace': ns}, SIG(signature='s', body=[a]), True))
+    for ns in ['com.ex', 'a.b']:
+        for sig, val in OTHER_BODY:
+            grid.append(({'arg0namespace': ns}, SIG(signature=sig, body=[val]), True))
     ctx.stat('grid-cases', len(grid))
     guarded(ctx, ['mkrule', 'match-pairs', 'oracle-vs-spec'], lambda: stream_pairs(ctx, grid, 'grid'))
 
@@ -3021,7 +3104,8 @@ def run(ctx):
         spec = gen_msg_spec(rng)
         mv = view(build_message(spec))
         kw = gen_rule_for(rng, mv, p_key=0.0)
-        key = rng.choice(['mtype', 'interface', 'member', 'path', 'destination', 'path_namespace', 'args', 'arg_paths'])
+        key = rng.choice(['mtype', 'interface', 'member', 'path', 'destination', 'path_namespace', 'args', 'arg_paths',
+                          'arg0namespace'])
         full = gen_rule_for(rng, mv, p_key=1.0, p_miss=0.5)
         if key in full:
             kw = {key: full[key]}
